@@ -332,6 +332,15 @@ def size_limit_cases():
                 if short:
                     body = body[:len(body) // 2]
                 out.append(Hdr(b"X", typ, sz, "gnu").bytes() + pad512(body) + file_entry(b"f", b"abc") + (b"" if short else END))
+    # PAX records of exactly limit-1 / limit / limit+1 / 2*limit bytes made of many short records (no long name involved)
+    for sz in (LIMIT - 1, LIMIT, LIMIT + 1, LIMIT + 512, 2 * LIMIT):
+        body = b""
+        while sz - len(body) >= 200:
+            body += b"100 comment=" + b"c" * 87 + b"\n"
+        rest = sz - len(body)                       # 100 .. 199: one record of exactly `rest` bytes
+        body += str(rest).encode() + b" uid=" + b"0" * (rest - len(str(rest)) - 6 - 4) + b"1234\n"
+        assert len(body) == sz
+        out.append(Hdr(b"X", b"x", sz, "ustar").bytes() + pad512(body) + file_entry(b"f", b"abc") + END)
     return out
 
 
